@@ -14,12 +14,12 @@ STUB = ["environment (SimEnv, checks bounds)", "reward model (probe)", "sampler 
 ASSUMPTIONS = ["tolerance 1 ulp of max|bound| for policy-driven actions, 0 for sampled (warm-up) actions",
                "'any network output however large' and key-determined noise form are pure clauses and not decided here"]
 TIERS = {"quick": {"runs": 64}, "thorough": {"runs": 1500}}
-REQUIRED = ["actions_in_bounds", "action_on_bound", "target_actions_in_bounds", "smoothing_within_noise_clip", "planner_candidates_in_bounds", "noise0_action_equals_policy"]
+REQUIRED = ["actions_in_bounds", "action_on_bound", "target_actions_in_bounds", "smoothing_within_noise_clip", "planner_candidates_in_bounds", "noise0_action_equals_policy", "noise_scale_samples"]
 REQUIRED_QUICK = ["actions_in_bounds", "target_actions_in_bounds", "planner_candidates_in_bounds"]
 CHUNK = 24  # TrainSim plans per fresh worker process
 SHRINK_LISTS = [["env", "script"]]
 SHRINK_INTS = []
-CLAUSES = ["C10.a", "C10.b", "C10.c", "C10.d", "C10.e", "C01.d"]
+CLAUSES = ["C10.a", "C10.b", "C10.c", "C10.d", "C10.e", "C10.f", "C01.d"]
 ADAPTERS = ["ddpg", "td3", "td3_lap", "td7", "mrq", "pets", "td3", "td3_lap"]  # SAC is not in the property's list (unsquashed Gaussian policy)
 
 
@@ -34,7 +34,45 @@ def make_plan(rng, tier, index):
     plan["supply_targets"] = name in ("td3", "td3_lap") or rng.random() < 0.5
     if "learning_starts" in plan["cfg"] and name not in ("mrq", "pets"):
         plan["cfg"]["learning_starts"] = rng.choice([0, 2, 4])
+    if name in ("ddpg", "td3", "td3_lap") and rng.random() < 0.5:
+        # plans that feed the pooled noise-scale statistic: moderate noise, wide clip, unsaturated policy
+        plan["cfg"].update(exploration_noise=rng.choice([0.1, 0.2]), noise_clip=5.0, init_scale=1.0)
+        if "target_policy_noise" in plan["cfg"] or name == "td3_lap":
+            plan["cfg"]["target_policy_noise"] = rng.choice([0.1, 0.2])
     return plan
+
+
+def chi2_band(n, p=1e-9):
+    """Wilson-Hilferty quantiles of chi2_n / n at tail probability p on each side (z = 6.0 ~ 1e-9)."""
+    import math
+    z = 6.0
+    a = 1 - 2 / (9 * n)
+    b = math.sqrt(2 / (9 * n))
+    return max(0.0, (a - z * b)) ** 3, (a + z * b) ** 3
+
+
+def finalize(records):
+    """C10.f: pooled over the tier, the standardised perturbations (a - pi(o)) / (sigma * half range) of un-clipped
+    exploration actions, and of un-clipped target-smoothing perturbations, have mean 0 and variance 1."""
+    import math
+    out = []
+    for key, what in (("noise_z", "exploration"), ("smooth_z", "target-smoothing")):
+        zs, idx = [], []
+        for r in records:
+            z = r.get("extra", {}).get(key)
+            if z:
+                zs += z
+                idx.append(r["index"])
+        n = len(zs)
+        if n < 200:
+            continue
+        m = sum(zs) / n
+        v = sum((x - m) ** 2 for x in zs) / (n - 1)
+        lo, hi = chi2_band(n - 1)
+        if abs(m) > 6 / math.sqrt(n) or not (lo <= v <= hi):
+            out.append({"clause": "C10.f", "site": what + "_noise_scale", "indices": idx,
+                        "detail": f"{what} perturbations standardised by (noise level x half action range), pooled over {len(idx)} runs / {n} un-clipped components: mean {m:.3f} (|.| <= {6 / math.sqrt(n):.3f}), variance {v:.3f} (band {lo:.3f}..{hi:.3f}); expected standard normal"})
+    return out
 
 
 def normalise(plan):
